@@ -1,58 +1,144 @@
 (* Props/C09.v -- Retained snapshots are immutable and time travel is stable.
-   Statements only; proofs are in Proofs/C09Proofs.v (file plane, Model/Fault.v) and Proofs/MetaProofs.v
-   (metadata plane, Model/Meta.v; the three lookup theorems are stated in Props/C15.v and re-stated here).
+   Statements only; proofs are in Proofs/C09MetaProofs.v + Proofs/MetaProofs.v (metadata plane, Model/Meta.v),
+   Proofs/GCViewProofs.v + Proofs/GCHistProofs.v (file contents and collections, Model/GCHist.v + Model/GCView.v),
+   Proofs/C09Proofs.v (file plane of the commit protocol under failures, Model/Fault.v).
 
-   (a) file plane: once a metadata version is committed, ANY continuation -- protocol steps of any number of
-       transactions (appends, deletes which write fresh manifests and a fresh list), failed / interrupted /
-       crashed commits, rollbacks -- leaves the set of files that version references unchanged and every one of
-       them present: files are write-once and nothing a later transaction does removes a committed version's file.
-   (b) metadata plane: a retained snapshot is, after any history of committed operations, the snapshot that was
-       committed (same timestamp, sequence number and manifest-list content; only the parent link may be
-       repointed); lookup by id returns it; lookup by timestamp returns the most recently committed retained
-       snapshot not newer than the requested time; deleting the current snapshot repoints to the most recently
-       committed survivor.
-   (c) collections: see C09_collect_keeps_retained below (proved over the collector model of C05). *)
+   (a) CONTENT (Model/GCView.v; section "content of a retained snapshot" below): what a reader gets from a retained
+       snapshot -- the manifests of its list, the data files of each manifest, the body of each data file -- is left
+       exactly as it was by every step of every sequential history: commits with any mix of appended, REWRITTEN and
+       dropped manifests, expiries, snapshot deletions, open (never committed) transactions, orphans, collections under
+       any fault oracle (C09_retained_content_step, C09_retained_content_stable; taking the history up to and including
+       the commit of the snapshot as the prefix, "as it was" is "as committed").
+   (b) METADATA (Model/Meta.v, whose step function is proved equal to the regenerated code by C15_step_regenerated):
+       a snapshot that is retained before and after ANY continuation has the timestamp, sequence number and manifest
+       list (every manifest, every entry) it had -- a delete_files builds a NEW snapshot with rewritten manifests and
+       leaves the old one alone; only the parent link may be repointed (C09_retained_snapshot_frozen).
+       Lookup by id is exact and complete (C09_by_id, C09_by_id_complete).
+       Lookup by timestamp, for EVERY history (C09_by_timestamp_characterised): greatest timestamp not newer than t,
+       and among the retained snapshots carrying that timestamp the most recently committed.  The property's reading
+       "the most recently committed retained snapshot not newer than t" follows when commit timestamps never decrease
+       (C09_by_timestamp_partial, hypothesis nondecreasing_ts spelled out) and is FALSE without it
+       (C09_by_timestamp_full is a Definition; C09_by_timestamp_refuted: a clock that steps back).
+       Deleting the current snapshot repoints to the most recently committed survivor, for every history
+       (C09_delete_current).
+   (c) COMMIT PROTOCOL UNDER FAILURES (Model/Fault.v): C09_version_refs_frozen -- see the note at the theorem for what it
+       does and does not say.
+   (d) COLLECTIONS: presence (C09_collect_keeps_retained), roots (C09_collect_roots_*, C09_collect_opens_roots). *)
 From Coq Require Import ZArith List Bool Arith.
 Require Import DS.Model.Commit DS.Model.Fault DS.Proofs.CommitProofs DS.Proofs.FaultProofs DS.Proofs.C09Proofs.
 Import ListNotations.
 
-Theorem C09_immutable : forall c m0 kind mr r0 next evs1 evs2,
+(* ------------------------------------------------------------------ commit protocol under failures (Model/Fault.v) *)
+(* Formerly "C09_immutable"; renamed because it is NOT the immutability of snapshot content (that is (a) and (b) above).
+   What it says: in the file plane of the commit machine -- any number of transactions taking protocol steps, failing,
+   being interrupted or crashing at any step boundary, and running their rollback -- the SET of file names a committed
+   metadata version references never changes, every one of those files stays present, and the version stays committed.
+   What carries it: file names are fresh; a version's reference set is written once (f_refs is append-only, by
+   construction of the model); and the rollback guard of the model (can_rollback: only a transaction that never flipped
+   the pointer deletes, and only its own files), which is tied to the code by C04_handlers_keep_after_possible_flip
+   (regenerated handler tables) -- it is a consequence of that guard, not an independent fact about the code.
+   It has no file contents and no manifest rewrite: it cannot fail for an in-place manifest mutation or an over-eager
+   collection; those are C09_retained_content_* below. *)
+Theorem C09_version_refs_frozen : forall c m0 kind mr r0 next evs1 evs2,
   sound c -> (forall f, In f r0 -> (f < next)%nat) ->
   let x := frun c (finit m0 kind mr r0 next) evs1 in
   let y := frun c (finit m0 kind mr r0 next) (evs1 ++ evs2) in
   forall v, In v (committed (fw x)) ->
     refs y v = refs x v /\ (forall f, In f (refs x v) -> In f (f_present y)) /\ In v (committed (fw y)).
 Proof. exact immutable_from_init. Qed.
-Print Assumptions C09_immutable.
+Print Assumptions C09_version_refs_frozen.
 
-(* Non-vacuity: version 1 is committed by actor 0, then actor 1 commits on top of it (writing fresh files):
-   version 1's file set is unchanged and present; both versions are committed. *)
+(* Non-vacuity: version 1 is committed by actor 0; then actor 1 commits version 2 on top of it (writing fresh files), and
+   actor 2 writes file 5, fails before the flip and rolls back (file 5 is deleted): version 1's file set is unchanged
+   and present, the rolled-back file is gone, both versions are committed. *)
 Definition ev a k := {| e_actor := a; e_kind := k |}.
 Definition ex_init := finit {| m_ops := []; m_cur := 1; m_lu := 100 |} (fun _ => KFresh) (fun _ => 50%nat) [0; 1]%nat 2%nat.
 Definition ex_cfg := {| cas := false; lockkind := Excl |}.
 Definition ex_evs1 := [FWrite 0; FProto (ev 0 (EBegin 0)); FWrite 0; FProto (ev 0 (ELockTry true)); FProto (ev 0 (EValidate 0 true));
        FProto (ev 0 (EMetaW 100)); FProto (ev 0 (EFence true)); FProto (ev 0 (EFlip true)); FProto (ev 0 ERelease)]%nat.
 Definition ex_evs2 := [FProto (ev 1 (EBegin 1)); FWrite 1; FProto (ev 1 (ELockTry true)); FProto (ev 1 (EValidate 1 true));
-       FProto (ev 1 (EMetaW 101)); FProto (ev 1 (EFence true)); FProto (ev 1 (EFlip true)); FProto (ev 1 ERelease)]%nat.
+       FProto (ev 1 (EMetaW 101)); FProto (ev 1 (EFence true)); FProto (ev 1 (EFlip true)); FProto (ev 1 ERelease);
+       FProto (ev 2 (EBegin 2)); FWrite 2; FProto (ev 2 (ELockTry true)); FProto (ev 2 EAbort); FRollback 2]%nat.
 Example C09_nonvacuous :
   let x := frun ex_cfg ex_init ex_evs1 in
   let y := frun ex_cfg ex_init (ex_evs1 ++ ex_evs2) in
-  committed (fw x) = committed (fw x) /\ In 1%nat (committed (fw x)) /\ refs x 1%nat = refs y 1%nat
-  /\ refs x 1%nat = [0; 1; 3; 2]%nat /\ length (committed (fw y)) = S (length (committed (fw x))) /\ all_present y = true.
+  In 1%nat (committed (fw x)) /\ refs x 1%nat = refs y 1%nat
+  /\ refs x 1%nat = [0; 1; 3; 2]%nat /\ length (committed (fw y)) = S (length (committed (fw x))) /\ all_present y = true
+  /\ f_present x = [3; 2; 0; 1]%nat /\ f_present (frun ex_cfg ex_init (ex_evs1 ++ firstn 12 ex_evs2)) = [5; 4; 3; 2; 0; 1]%nat
+  /\ f_present y = [4; 3; 2; 0; 1]%nat /\ f_next y = 6%nat.
 Proof. vm_compute. repeat split; auto. Qed.
 
 (* ------------------------------------------------------------------ metadata plane (Model/Meta.v) *)
-Require Import DS.Model.MetaBase DS.Model.Meta DS.Model.MetaSpec DS.Proofs.MetaProofs.
+From Coq Require Import Lia.
+Require Import DS.Model.MetaBase DS.Model.Meta DS.Model.MetaSpec DS.Proofs.MetaProofs DS.Proofs.C09MetaProofs.
 Open Scope Z_scope.
 
-Theorem C09_by_timestamp : forall (t0 f0 : Z) (ops : list op) (t : Z),
+(* A retained snapshot is frozen.  For every history ops1 and every continuation ops2 (transactions appending, deleting
+   files, expiring; snapshot deletions; retention pruning; steps that abort or commit nothing), a snapshot found in the
+   metadata before and after -- same id -- has the same timestamp, sequence number and manifest list: every manifest and
+   every entry (path, status, adding snapshot, sequence number) as committed.  Unbounded in both histories. *)
+Theorem C09_retained_snapshot_frozen : forall (t0 f0 : Z) (ops1 ops2 : list op) (s s' : snap),
+  fresh_ops f0 (ops1 ++ ops2) ->
+  In s (snaps (md (replay t0 f0 ops1))) -> In s' (snaps (md (replay t0 f0 (ops1 ++ ops2)))) -> sid s' = sid s ->
+  ts s' = ts s /\ seq s' = seq s /\ mlist s' = mlist s.
+Proof. exact retained_frozen. Qed.
+Print Assumptions C09_retained_snapshot_frozen.
+
+Theorem C09_by_id : forall (t0 f0 : Z) (ops : list op) (id : Z) (s : snap),
+  fresh_ops f0 ops -> by_id (md (replay t0 f0 ops)) id = Some s ->
+  In s (snaps (md (replay t0 f0 ops))) /\ sid s = id /\ exists h, In h (hist_of t0 f0 ops) /\ same_but_parent h s.
+Proof. exact by_id_retained. Qed.
+Print Assumptions C09_by_id.
+
+(* ... and it finds every retained snapshot (ids are unique), returning exactly the retained record *)
+Theorem C09_by_id_complete : forall (t0 f0 : Z) (ops : list op) (s : snap),
+  fresh_ops f0 ops -> In s (snaps (md (replay t0 f0 ops))) -> by_id (md (replay t0 f0 ops)) (sid s) = Some s.
+Proof. exact by_id_complete. Qed.
+Print Assumptions C09_by_id_complete.
+
+(* Lookup by timestamp, for EVERY history (commit timestamps in any order, equal timestamps, retention pruning that
+   re-sorts the snapshots list): the result is a retained snapshot not newer than t; no retained snapshot not newer than
+   t has a greater timestamp; and among the retained snapshots carrying the result's timestamp it is the most recently
+   committed one (last in the ghost commit history).  None exactly when every retained snapshot is newer than t. *)
+Theorem C09_by_timestamp_characterised : forall (t0 f0 : Z) (ops : list op) (t : Z),
+  fresh_ops f0 ops ->
+  match by_timestamp (md (replay t0 f0 ops)) t with
+  | Some s => In s (snaps (md (replay t0 f0 ops))) /\ ts s <= t
+              /\ (forall x, In x (snaps (md (replay t0 f0 ops))) -> ts x <= t -> ts x <= ts s)
+              /\ option_map sid (last_opt (filter (fun h => memZ (sid h) (sids (md (replay t0 f0 ops))) && (ts h =? ts s))
+                                                  (hist_of t0 f0 ops))) = Some (sid s)
+  | None => forall x, In x (snaps (md (replay t0 f0 ops))) -> t < ts x
+  end.
+Proof. exact by_timestamp_characterised. Qed.
+Print Assumptions C09_by_timestamp_characterised.
+
+(* The property's wording -- "the most recently committed retained snapshot not newer than the requested time" -- as a
+   statement about every history: *)
+Definition C09_by_timestamp_full : Prop := forall (t0 f0 : Z) (ops : list op) (t : Z),
+  fresh_ops f0 ops ->
+  option_map sid (by_timestamp (md (replay t0 f0 ops)) t) =
+  option_map sid (last_opt (filter (fun h => memZ (sid h) (sids (md (replay t0 f0 ops))) && (ts h <=? t))
+                                   (hist_of t0 f0 ops))).
+
+(* It is FALSE: snapshot 1 is committed with timestamp 10, then snapshot 2 with timestamp 5 (the wall clock stepped back,
+   or a second writer's clock lags); both are not newer than 10, snapshot 2 is the most recently committed, and the lookup
+   at 10 returns snapshot 1 (regress_ops of Proofs/C09MetaProofs.v; the real code does the same: harness/props/c09.py
+   runs such histories and counts the lookups on which the two readings differ). *)
+Theorem C09_by_timestamp_refuted : ~ C09_by_timestamp_full.
+Proof. exact by_timestamp_full_refuted. Qed.
+Print Assumptions C09_by_timestamp_refuted.
+
+(* It holds under exactly this extra hypothesis: the timestamps of the history's transactions never decrease
+   (nondecreasing_ts; equal timestamps allowed -- the stable sort is what makes them come out right). *)
+Theorem C09_by_timestamp_partial : forall (t0 f0 : Z) (ops : list op) (t : Z),
   fresh_ops f0 ops -> nondecreasing_ts ops ->
   option_map sid (by_timestamp (md (replay t0 f0 ops)) t) =
   option_map sid (last_opt (filter (fun h => memZ (sid h) (sids (md (replay t0 f0 ops))) && (ts h <=? t))
                                    (hist_of t0 f0 ops))).
 Proof. exact by_timestamp_most_recent. Qed.
-Print Assumptions C09_by_timestamp.
+Print Assumptions C09_by_timestamp_partial.
 
+(* no hypothesis on the clock here: the repointing walks the snapshot log, which is in commit order *)
 Theorem C09_delete_current : forall (t0 f0 : Z) (ops : list op) (id : Z),
   fresh_ops f0 ops ->
   cur (md (replay t0 f0 ops)) = Some id -> In id (sids (md (replay t0 f0 ops))) ->
@@ -62,23 +148,67 @@ Theorem C09_delete_current : forall (t0 f0 : Z) (ops : list op) (id : Z),
 Proof. exact delete_current_most_recent. Qed.
 Print Assumptions C09_delete_current.
 
-Theorem C09_by_id : forall (t0 f0 : Z) (ops : list op) (id : Z) (s : snap),
-  fresh_ops f0 ops -> by_id (md (replay t0 f0 ops)) id = Some s ->
-  In s (snaps (md (replay t0 f0 ops))) /\ sid s = id /\ exists h, In h (hist_of t0 f0 ops) /\ same_but_parent h s.
-Proof. exact by_id_retained. Qed.
-Print Assumptions C09_by_id.
+(* Non-vacuity (metadata plane).  Snapshot 1 appends /data/1 and /data/2 in one manifest; snapshot 2 is committed in the
+   same millisecond; snapshot 3 is a delete_files of data/1: it carries a REWRITTEN manifest (one EXISTING entry) while
+   snapshot 1 keeps its two ADDED entries; then the intermediate snapshot 2 is deleted and 3's parent is repointed to 1
+   (the one field that may change).  Lookups: at 10 the most recently committed of the two snapshots stamped 10; nothing
+   before 10; by id every retained snapshot and only those; deleting the current snapshot 3 repoints to 1. *)
+Definition c09_meta_ops : list op :=
+  [Txn [TAppend [(1, 1); (1, 2)]] 1 10 100 1; Txn [TAppend [(0, 3)]] 2 10 101 2; Txn [TDelete [(0, 1)]] 3 11 102 3; DeleteSnap 2 103 4].
+Definition c09_md (n : nat) : meta := md (replay 0 0 (firstn n c09_meta_ops)).
+Definition c09_ent (p : path) (st ad sq : Z) : entry := {| epath := p; estatus := st; eadded := ad; eseq := sq |}.
+Example C09_meta_nonvacuous :
+  fresh_ops 0 c09_meta_ops /\ nondecreasing_ts c09_meta_ops
+  /\ map sid (snaps (c09_md 4)) = [1; 3]
+  /\ option_map mlist (by_id (c09_md 1) 1) = Some [[c09_ent (1, 1) 1 1 1; c09_ent (1, 2) 1 1 1]]
+  /\ option_map mlist (by_id (c09_md 4) 1) = Some [[c09_ent (1, 1) 1 1 1; c09_ent (1, 2) 1 1 1]]
+  /\ option_map mlist (by_id (c09_md 4) 3) = Some [[c09_ent (1, 2) 0 1 1]; [c09_ent (0, 3) 1 2 2]]
+  /\ option_map parent (by_id (c09_md 3) 3) = Some (Some 2) /\ option_map parent (by_id (c09_md 4) 3) = Some (Some 1)
+  /\ by_id (c09_md 4) 2 = None
+  /\ option_map sid (by_timestamp (c09_md 3) 10) = Some 2 /\ by_timestamp (c09_md 3) 9 = None
+  /\ option_map sid (by_timestamp (c09_md 3) 11) = Some 3 /\ option_map sid (by_timestamp (c09_md 4) 10) = Some 1
+  /\ cur (c09_md 4) = Some 3 /\ option_map cur (delete_snapshot (c09_md 4) 3) = Some (Some 1).
+Proof.
+  split; [|split].
+  - unfold fresh_ops, c09_meta_ops. simpl. repeat split; repeat constructor; simpl; intuition lia.
+  - unfold nondecreasing_ts, c09_meta_ops. simpl. repeat constructor; lia.
+  - vm_compute. repeat split; reflexivity.
+Qed.
+
+(* Non-vacuity (a clock that steps back; retention pruning re-sorts the snapshots list).  retention-count = 2; snapshots
+   1, 2, 3 are committed with timestamps 10, 5, 7: the third commit prunes snapshot 2 and leaves the snapshots list as
+   [3; 1] -- NOT commit order -- while the snapshot log stays [1; 3].  The hypothesis of C09_by_timestamp_partial fails;
+   the lookup at 10 returns snapshot 1 (greatest timestamp), not the most recently committed snapshot 3: exactly what
+   C09_by_timestamp_characterised says and C09_by_timestamp_full does not. *)
+Definition c09_regress_ops : list op :=
+  [SetRetention (PInt 2) 1 1; Txn [TAppend [(0, 1)]] 1 10 2 2; Txn [TAppend [(0, 2)]] 2 5 3 3; Txn [TAppend [(0, 3)]] 3 7 4 4].
+Example C09_regress_nonvacuous :
+  let m := md (replay 0 0 c09_regress_ops) in
+  fresh_ops 0 c09_regress_ops /\ ~ nondecreasing_ts c09_regress_ops /\ ~ nondecreasing_ts regress_ops
+  /\ map sid (snaps m) = [3; 1] /\ slog m = [(10, 1); (7, 3)] /\ map sid (hist_of 0 0 c09_regress_ops) = [1; 2; 3]
+  /\ option_map sid (by_timestamp m 10) = Some 1 /\ option_map sid (by_timestamp m 8) = Some 3 /\ by_timestamp m 6 = None
+  /\ option_map sid (last_opt (filter (fun h => memZ (sid h) (sids m) && (ts h <=? 10)) (hist_of 0 0 c09_regress_ops))) = Some 3.
+Proof.
+  split; [|split; [|split]].
+  - unfold fresh_ops, c09_regress_ops. simpl. repeat split; repeat constructor; simpl; intuition lia.
+  - unfold nondecreasing_ts, c09_regress_ops. simpl. intro H. inversion H as [|? ? _ Hall]; subst.
+    inversion Hall as [|? ? Hle _]; subst. lia.
+  - exact regress_not_nondecreasing.
+  - vm_compute. repeat split; reflexivity.
+Qed.
 
 
 (* ------------------------------------------------------------------ collections (Model/GC.v, Model/GCHist.v; C05) *)
 (* After ANY sequential history of commits (append / multi-operation / delete_files), expiries, snapshot deletions,
    open transactions, planted orphans, arbitrary file ages and COLLECTIONS with any table location, grace period,
    clock, abandonment timeout and any fault oracle, every retained snapshot is fully present: its manifest list,
-   every manifest in it and every data file they name (C05_history, restated for the retained-snapshot half). *)
+   every manifest in it and every data file they name (C05_history, restated for the retained-snapshot half).
+   PRESENCE only: that the content is identical is C09_retained_content_step / C09_retained_content_stable below. *)
 Require DS.Model.GC DS.Model.GCHist DS.Proofs.GCHistProofs.
 Theorem C09_collect_keeps_retained : forall ops : list DS.Model.GCHist.hop,
   let h := DS.Model.GCHist.run_hist ops in
   forall l, In l (DS.Model.GCHist.h_lists h) -> DS.Model.GCHist.snapshot_present (DS.Model.GCHist.h_store h) l.
-Proof. intros ops h. exact (proj2 (DS.Proofs.GCHistProofs.history_invariant ops)). Qed.
+Proof. exact hist_keeps_retained_present. Qed.
 Print Assumptions C09_collect_keeps_retained.
 
 (* ------------------------------------------------------------------ content of a retained snapshot (Model/GCView.v) *)
@@ -169,5 +299,5 @@ Theorem C09_lookups_regenerated :
   (forall m t, gen_by_timestamp (snaps m) t = by_timestamp m t)
   /\ (forall m id, gen_delete_snapshot m id = PyOk (delete_snapshot m id))
   /\ (forall m, gen_most_recent m = PyOk (most_recent m)).
-Proof. split; [exact gen_by_timestamp_agrees|]. split; [exact gen_delete_snapshot_agrees | exact gen_most_recent_agrees]. Qed.
+Proof. exact lookups_regenerated. Qed.
 Print Assumptions C09_lookups_regenerated.
